@@ -96,7 +96,7 @@ def classify_verdict(ast, facts, real):
     (1) a header operator (~h ~hq ~hs) whose regex can see the CRLF that joins the header lines, i.e. its verdict on the
         joined block differs from the documented per-'name: value'-line verdict;
     (2) a regex argument containing a literal TAB (always rendered quoted).
-    A mismatch is explained only if flipping exactly the leaves of one condition (or, failing that, of both) reproduces
+    A mismatch is explained only if flipping some of the leaves of one condition (or, failing that, of both) reproduces
     the real verdict -- or leaves the verdict undetermined (another leaf is undocumented and now decides), in which case
     the real verdict no longer contradicts the documented semantics."""
     hdr, tab = {}, {}
@@ -110,16 +110,23 @@ def classify_verdict(ast, facts, real):
             block = ref.header_block_verdicts(lf[1], lf[2], facts)
             if line is not None and (not line) in block:
                 hdr[id(lf)] = not line
-    if hdr and ref.ev(ast, facts, hdr) in (real, None):
-        return [M_HEADER]
-    if tab:
-        # a tab leaf may flip or not (depends on what the expanded blanks match): try every subset of at most 3 such leaves
-        ids = list(tab)[:3]
+
+    def subsets(d):
+        # a candidate leaf may or may not flip (which flags the block is searched with is undocumented): every non-empty
+        # subset of at most 4 candidates
+        ids = list(d)[:4]
         for mask in range(1, 2 ** len(ids)):
-            sub = {i: tab[i] for n, i in enumerate(ids) if mask >> n & 1}
-            if ref.ev(ast, facts, sub) in (real, None):
-                return [M_TAB]
-            if hdr and ref.ev(ast, facts, {**hdr, **sub}) in (real, None):
+            yield {i: d[i] for n, i in enumerate(ids) if mask >> n & 1}
+
+    for h in subsets(hdr):
+        if ref.ev(ast, facts, h) in (real, None):
+            return [M_HEADER]
+    for t in subsets(tab):
+        if ref.ev(ast, facts, t) in (real, None):
+            return [M_TAB]
+    for t in subsets(tab):
+        for h in subsets(hdr):
+            if ref.ev(ast, facts, {**h, **t}) in (real, None):
                 return [M_HEADER, M_TAB]
     return [None]
 
